@@ -291,6 +291,58 @@ Example c18_reporter_concrete_example :
      Some (report_dict true ck [(codes "ok", JBool true)] 1)].
 Proof. vm_compute. repeat split. Qed.
 
+(* Value-level round trip: for EVERY well-formed JSON value (lists and dicts of any depth and
+   width, number tokens opaque, strings and keys without an adjacent high+low surrogate pair)
+   the parser gives back the value and what follows it, and loads (dumps v) = Some v. *)
+Theorem c18_json_roundtrip :
+  (forall v, jwf v = true -> jnov v = true ->
+     forall rest fuel, follow_ok rest = true -> (List.length (dumps v) < fuel)%nat ->
+       parse_value fuel (dumps v ++ rest)%list = Some (v, rest)) /\
+  (forall v, jwf v = true -> jnov v = true -> loads (dumps v) = Some v).
+Proof. split; [exact parse_value_roundtrip | exact loads_dumps]. Qed.
+Print Assumptions c18_json_roundtrip.
+
+Example c18_json_roundtrip_example :
+  let v := JDict [(codes "a", JList [JList []; JDict []; JList [JList [JNum (codes "-0.0"); JNum (codes "Infinity")]]]);
+                  (codes "[tune-metric]: {", JDict [(codes "}", JStr (codes "]}" ++ [10; 34; 233; 55296])%list); (codes "", JNull)]);
+                  (codes "b", JBool false)] in
+  jwf v = true /\ jnov v = true /\ loads (dumps v) = Some v.
+Proof. vm_compute. repeat split. Qed.
+
+(* Every report the Reporter accepts arrives unchanged — a theorem about the modelled wire
+   format end to end: Reporter on JSON values (report_dict) -> dumps -> the stream with other
+   output -> readlines -> retrieve -> loads.  For every script with well-formed keyword
+   arguments and clock tokens (strings without adjacent surrogate pair), either value of
+   add_time, and tag-free other output: the tuner's parsed dictionaries are, in order, exactly
+   the dictionaries the Reporter built for the accepted calls — the user's entries unchanged
+   and in their order (every key of kwargs is a key of the dictionary), followed by the
+   reserved fields with strictly increasing counter values; a call is accepted iff it has no
+   None value, no st_ key and its ASCII payload is below the size limit. *)
+Theorem c18_reports_arrive_unchanged :
+  forall add_time m1 m2 cevs k0, forallb cevent_good cevs = true ->
+    match run_script m1 m2 k0 (map (to_event add_time) cevs) with
+    | (_, os, cs) =>
+        noise_ok cs = true ->
+        StronglySorted lt (emitted_iters os) /\
+        exists ds, Forall2 (built_dict add_time cevs) (emitted_iters os) ds /\
+                   map loads (retrieve_model (readlines (render cs))) = map Some ds
+    end.
+Proof. exact reports_arrive_unchanged. Qed.
+Print Assumptions c18_reports_arrive_unchanged.
+
+Example c18_reports_arrive_unchanged_example :
+  let ck := {| ck_timestamp := codes "1790000000.25"; ck_time := codes "0.5"; ck_cost := Some (codes "1e-05") |} in
+  let kw1 := [(codes "tag", JStr (codes "resnet-18")); (codes "note", JStr (codes "[tune-metric]: {}" ++ [10; 233])%list);
+              (codes "m", JDict [(codes "self", JList [JNum (codes "NaN"); JNull])])] in
+  let cevs := [CSay (codes "epoch 1 } [tune-metri"); CCall ck kw1; CCall ck [(codes "st_x", JNum (codes "1"))];
+               CSay (codes "no newline"); CCall ck [(codes "ok", JBool true)]] in
+  forallb cevent_good cevs = true /\
+  let '(k', os, cs) := run_script MSG_UNSER MSG_LARGE reporter_init (map (to_event true) cevs) in
+  noise_ok cs = true /\
+  map loads (retrieve_model (readlines (render cs))) =
+    [Some (JDict (kw1 ++ reserved_fields true ck 0)%list); Some (JDict ([(codes "ok", JBool true)] ++ reserved_fields true ck 1)%list)].
+Proof. vm_compute. repeat split. Qed.
+
 (* non-vacuity: other output without newline on the same line as a report,
    braces in the other output, a payload containing the whole tag prefix and
    braces, a rejected report in between — hypotheses hold, result as stated *)
